@@ -290,13 +290,20 @@ def build_order(nodes):
 
 # ------------------------------------------------------------------ graph enumeration
 
-def gen_graphs(max_nodes, kinds, leaves):
+def gen_graphs(max_nodes, kinds, leaves, shard=None):
     """Every rooted graph with <= max_nodes container nodes of the given kinds, every
-    assignment of each slot to a leaf or to a node, up to renaming of nodes: nodes are
+    assignment of each slot to a leaf or to a node, up to renaming of nodes (shard=(k, m): only every m-th root configuration): nodes are
     numbered in breadth-first discovery order from the root (node 0), so each isomorphism
     class is produced exactly once and every node is reachable. Yields node lists."""
+    counter = [0]
+
     def expand(nodes, i):
         # nodes: list of [kind, slots...] (mutable lists, slots filled up to node i-1)
+        if i == 1 and shard is not None:
+            # sharding: the sub-space below each complete root node is one unit of work
+            counter[0] += 1
+            if counter[0] % shard[1] != shard[0]:
+                return
         if i == len(nodes):
             yield [tuple(n) for n in nodes]
             return
